@@ -169,6 +169,7 @@ def run(ctx: Ctx) -> None:
                             cur = m0
                             ok = True
                             final_first = None
+                            inter: List[Any] = []      # (step, module, backend kinds at creation, result if it was called)
                             for ti, t in enumerate(chain):
                                 with ctx.guard("C17:transform", {**key, "step": ti}) as g:
                                     if t == "unit_scale":
@@ -187,12 +188,16 @@ def run(ctx: Ctx) -> None:
                                 cur = nxt
                                 actions.append(t)
                                 trace.append({"backends": [kind_of(b) for b in cur.backends], "rerun": bool(cur.rerun_transform)})
+                                mid_res = None
                                 if call_mid and ti < len(chain) - 1:
                                     with ctx.guard("C17:call", {**key, "step": ti}) as g:
-                                        fwd_bwd(cur, x, 7)
+                                        mid_res = fwd_bwd(cur, x, 7)
                                     if g.failed:
                                         ok = False
                                         break
+                                if ti < len(chain) - 1:
+                                    inter.append((ti, cur, [kind_of(b) for b in cur.backends], mid_res))
+                                if call_mid and ti < len(chain) - 1:
                                     actions.append("call")
                                     trace.append({"backends": [kind_of(b) for b in cur.backends], "rerun": bool(cur.rerun_transform)})
                             if not ok:
@@ -227,6 +232,21 @@ def run(ctx: Ctx) -> None:
                                                   {"unit": n_unit, "quant": n_quant})
                                 if any("running" in m_ for later in logs_per_call[1:] for m_ in later):
                                     ctx.violation("C17:rerun", "backends were re-run on a repeated call", key)
+                            # a transformed module that was transformed further is an "original" too: it still is what it was
+                            for (ti, im, kinds0, res0) in inter:
+                                ikey = {**key, "intermediate_step": ti}
+                                kinds1 = [kind_of(b) for b in im.backends]
+                                if kinds1 != kinds0:
+                                    ctx.violation("C17:intermediate-backends", "transforming a transformed module changed the "
+                                                  "transforms the latter applies", ikey, {"before": kinds0, "after": kinds1})
+                                with ctx.guard("C17:call-intermediate", ikey):
+                                    res1 = fwd_bwd(im, x, 7)
+                                    prefix = results.get((tuple(chain[: ti + 1]), (), False)) if ti + 1 <= len(core) else None
+                                    want = res0 if res0 is not None else prefix
+                                    if want is not None and not same(want, res1):
+                                        ctx.violation("C17:intermediate-behaviour", "a transformed module computes something else after "
+                                                      "it was transformed further", ikey,
+                                                      {"max_out_diff": float((want[0] - res1[0]).abs().max())})
                             # original untouched
                             sd1 = m0.state_dict()
                             if list(sd1) != list(sd0) or any(not torch.equal(sd1[k], sd0[k]) for k in sd0):
@@ -252,6 +272,18 @@ def run(ctx: Ctx) -> None:
                             ctx.violation("C17:order", "simulate(unit_scale(m)) and unit_scale(simulate(m)) compute different functions",
                                           {"module": mname, "format": fname, "last": last, "intermediates_called": cm},
                                           {"max_out_diff": float((a[0] - b[0]).abs().max())})
+                    # a lossless format simulation changes nothing, wherever it is nested: in particular it must not undo
+                    # what the earlier (or later) unit_scale did
+                    if fname == "lossless":
+                        for with_sim, without in ((("unit_scale", "simulate"), ("unit_scale",)), (("simulate", "unit_scale"), ("unit_scale",)),
+                                                  (("simulate",), ())):
+                            a = results.get((with_sim, tuple(last), False))
+                            b = results.get((without, tuple(last), False))
+                            if a is not None and b is not None and not same(a, b):
+                                ctx.violation("C17:lossless-nesting", "nesting a lossless format simulation changes what the other "
+                                              "transforms of the chain compute", {"module": mname, "chain": list(with_sim) + last},
+                                              {"max_out_diff": float((a[0] - b[0]).abs().max()),
+                                               "max_input_grad_diff": float((a[1] - b[1]).abs().max())})
                     # intermediates called or not must not matter either
                     for core in cores:
                         a = results.get((tuple(core), tuple(last), False))
